@@ -41,10 +41,10 @@ for log in sys.argv[1:]:
     t = open(log).read()
     for blk in t.split("=== ")[1:]:
         head = blk.splitlines()[0]
-        m = re.match(r"(/tmp/mut(2?)_(c\d\d)_out/(m\d))/? vs (.*)", head)
+        m = re.match(r"(/tmp/mut(\d?)_(c\d\d)_out/(m\d))/? vs (.*)", head)
         if not m:
             continue
-        d, c, mk, pids = m.group(1), m.group(3), (("r2" + m.group(4)) if m.group(2) else m.group(4)), m.group(5).split()
+        d, c, mk, pids = m.group(1), m.group(3), (("r" + m.group(2) + m.group(4)) if m.group(2) else m.group(4)), m.group(5).split()
         try:
             j = json.loads(blk[blk.index("{"):blk.rindex("}") + 1])
         except Exception:
